@@ -143,3 +143,69 @@ Example tv_example :
   txs_verify true (block_short_ids [0%N; 2%N] [5%N; 6%N]) [1%N; 3%N] [6%N; 5%N] = TUnmatched /\
   txs_verify true (block_short_ids [0%N; 2%N] [5%N; 6%N]) [4294967295%N] [] = TUnmatched.
 Proof. repeat split. Qed.
+
+(* every listed short id gets a slot, in the order of the list — whatever the prefilled indexes
+   are (repeated, beyond the block): the block has |prefilled| + |short ids| slots and at most
+   |prefilled| of them are prefilled *)
+Fixpoint cnt (P : N -> bool) (f : nat) (i : N) : nat :=
+  match f with O => 0 | S f' => (if P i then 1 else 0) + cnt P f' (N.succ i) end.
+
+Lemma cnt_ext : forall P Q f i, (forall j, P j = Q j) -> cnt P f i = cnt Q f i.
+Proof. intros P Q f. induction f as [|f IH]; intros i H; cbn [cnt]; [reflexivity|]. rewrite H, (IH _ H). reflexivity. Qed.
+
+Lemma cnt_or : forall P Q f i, cnt (fun j => P j || Q j) f i <= cnt P f i + cnt Q f i.
+Proof.
+  intros P Q f. induction f as [|f IH]; intros i; cbn [cnt]; [lia|].
+  specialize (IH (N.succ i)). destruct (P i), (Q i); cbn [orb]; lia.
+Qed.
+
+Lemma cnt_eq_above : forall p f i, (p < i)%N -> cnt (fun j => N.eqb j p) f i = 0.
+Proof.
+  intros p f. induction f as [|f IH]; intros i H; cbn [cnt]; [reflexivity|].
+  destruct (N.eqb_spec i p); [lia|]. rewrite IH by lia. reflexivity.
+Qed.
+
+Lemma cnt_eq_le1 : forall p f i, cnt (fun j => N.eqb j p) f i <= 1.
+Proof.
+  intros p f. induction f as [|f IH]; intros i; cbn [cnt]; [lia|].
+  destruct (N.eqb_spec i p) as [->|Hn].
+  - rewrite cnt_eq_above by lia. lia.
+  - specialize (IH (N.succ i)). lia.
+Qed.
+
+Lemma cnt_mem_le : forall pre f i, cnt (fun j => existsb (N.eqb j) pre) f i <= length pre.
+Proof.
+  induction pre as [|p pre IH]; intros f i.
+  - cbn [existsb]. clear. revert i. induction f as [|f IHf]; intros i; cbn [cnt length]; [lia|]. specialize (IHf (N.succ i)). cbn [length] in IHf. lia.
+  - cbn [existsb length].
+    pose proof (cnt_or (fun j => N.eqb j p) (fun j => existsb (N.eqb j) pre) f i) as Ho.
+    pose proof (cnt_eq_le1 p f i). specialize (IH f i). lia.
+Qed.
+
+Lemma cnt_compl : forall P f i, cnt P f i + cnt (fun j => negb (P j)) f i = f.
+Proof.
+  intros P f. induction f as [|f IH]; intros i; cbn [cnt]; [reflexivity|].
+  specialize (IH (N.succ i)). destruct (P i); cbn [negb]; lia.
+Qed.
+
+Lemma bsids_somes_all : forall f i pre sids,
+  length sids <= cnt (fun j => negb (existsb (N.eqb j) pre)) f i ->
+  somes (bsids f i pre sids) = sids.
+Proof.
+  induction f as [|f IH]; intros i pre sids H; cbn [cnt] in H; cbn [bsids].
+  - destruct sids; [reflexivity | cbn [length] in H; lia].
+  - destruct (existsb (N.eqb i) pre) eqn:Hm; cbn [negb] in H.
+    + cbn [somes]. apply IH. lia.
+    + destruct sids as [|s r]; cbn [somes].
+      * clear. revert i. induction f as [|f IHf]; intros i; cbn [bsids]; [reflexivity|].
+        destruct (existsb (N.eqb (N.succ i)) pre); cbn [somes]; apply IHf.
+      * f_equal. apply IH. cbn [length] in H. lia.
+Qed.
+
+Theorem block_short_ids_somes : forall pre sids, somes (block_short_ids pre sids) = sids.
+Proof.
+  intros pre sids. unfold block_short_ids. apply bsids_somes_all.
+  pose proof (cnt_compl (fun j => existsb (N.eqb j) pre) (length pre + length sids) 0%N) as Hc.
+  pose proof (cnt_mem_le pre (length pre + length sids) 0%N) as Hm.
+  lia.
+Qed.
